@@ -87,6 +87,10 @@ def sched_cases(rng, tier):
             cases.append((init, maxp, 1, s, [("g", d0), ("g", d1)]))
     for s in two:                                       # a grow next to a memory.size
         cases.append((1, 10, 1, s, [("g", 2), ("s", 0)]))
+    for s in two:                                       # a failing (wrapping / too large) grow followed by other operations
+        cases.append((1, 10, 1, s, [("g", 4294967295), ("s", 0)]))
+        cases.append((2, 4, 1, s, [("g", 4294967294), ("g", 1)]))
+        cases.append((1, 2, 1, s, [("g", 5), ("s", 0)]))
     n3 = 60 if tier == "quick" else 1500
     for _ in range(n3):                                 # three / four operations, seeded schedules (incl. partial ones)
         n = rng.choice([3, 3, 4])
@@ -112,11 +116,15 @@ def seq_cases(rng, tier):
                 if shared == 0 and maxp > 100:
                     continue                      # keep real allocations small for the non-shared path
                 cases.append((init, maxp, shared, [d % (1 << 32) for d in ds]))
+    for init, maxp, ds in [(1, 10, [4294967295, 1]), (1, 10, [4294967295, "s"]), (2, 4, [4294967294, 1, "s"]),
+                           (1, 3, [5, "s", 1]), (1, 3, [0, "s", 2, "s", 1, "s"]), (3, 3, [1, "s", 0])]:
+        cases.append((init, maxp, 1, ds))               # shared: every operation must leave the mutex unlocked
     for _ in range(40 if tier == "quick" else 2000):
         init = rng.choice([0, 1, 2, 7])
         maxp = init + rng.choice([0, 1, 5, 20])
         ds = [rng.choice([0, 1, 2, 5, 21, 4294967295, 4294967295 - init, 4294967296 - init, 2147483648]) % (1 << 32)
               for _ in range(rng.randrange(1, 6))]
+        ds = [("s" if rng.random() < 0.15 else x) for x in ds]
         cases.append((init, maxp, rng.choice([0, 1]), ds))
     return cases
 
@@ -251,6 +259,74 @@ def run_grow_content(chk, repo, d, tier, broken, exe=None):
     chk.coverage.update({"content_" + k: v for k, v in hist.items()})
 
 
+# ----------------------------------------------------------------------------- memory.size through the translator
+
+def generated_size_part(chk, repo, d, inc, tier, broken):
+    """For every kind of memory (defined / imported × shared / non-shared) translate a module with memory.size and
+    memory.grow with the REAL w2c2 and require that memory.size is emitted as a call of the header function
+    `wasmMemorySize` (whose shared path is locked: Gen.sizeSteps, size_reads_under_lock) — never as a read of the
+    descriptor; for the shared kinds additionally run the generated code under ThreadSanitizer with growers and size
+    readers.  Violations: key memory-size-unlocked-read-race, replay = module bytes + memory kind."""
+    import opmods
+    res = {}
+    try:
+        w2c2 = opmods.build_w2c2(repo, d)
+    except Exception as e:
+        broken.append({"kind": "harness-build", "msg": "w2c2: " + str(e)[-500:]})
+        return res
+    iters = 3000 if tier == "quick" else 40000
+    for kind, shared, imported in gs.MEMORY_KINDS:
+        ent = {}
+        res[kind] = ent
+        try:
+            gexe, gtext = gs.build_generated(w2c2, inc, os.path.join(d, "genmod_" + kind), shared=shared, imported=imported)
+            em = gs.emitted_statements(gtext)
+        except Exception as e:
+            ent["error"] = str(e)[-300:]
+            broken.append({"kind": "harness-build", "msg": f"generated module ({kind}): {ent['error']}"})
+            continue
+        ent["emitted"] = em
+        chk.count_case(("emitted-memory.size", kind), True,
+                       {"case": f"w2c2 on a module with a {kind} memory: memory.size / memory.grow", "real": em})
+        replay = {"module": gs.size_module(1000, shared, imported).hex(), "memory_kind": kind, "emitted": em,
+                  "args": ["generated", kind], "replay_cmd": "python3 tools/check.py C18 --replay <this file>"}
+        sz = em.get("memory.size")
+        if sz is None:
+            broken.append({"kind": "correspondence", "msg": f"could not find the statement emitted for memory.size ({kind}): {em}"})
+        elif not sz.startswith("wasmMemorySize("):
+            if shared:
+                chk.violation(
+                    "memory-size-unlocked-read-race",
+                    f"memory.size on a {kind} memory is emitted as `si0={sz};` — a plain read of the descriptor instead of the "
+                    "locked header function wasmMemorySize: data race with a concurrent memory.grow of another thread "
+                    "(model: unlocked_size_read_would_race)", replay, True)
+            else:
+                broken.append({"kind": "correspondence",
+                               "msg": f"memory.size on a {kind} memory is emitted as `si0={sz};`, the model assumes the translator "
+                                      "always emits a call of wasmMemorySize"})
+        if shared:
+            rc, o4, e4 = gs.run(gexe, [1, iters, 1], timeout=300)
+            rc, o5, e5 = gs.run(gexe, [3, iters, 3], timeout=300)
+            ent["tsan"] = {"one_grower_one_size_reader_race": "data race" in e4, "result": o4,
+                           "growers_and_size_readers_race": "data race" in e5, "result3": o5}
+            chk.count_case(("tsan-generated", kind, "g1s1"), True, None)
+            chk.count_case(("tsan-generated", kind, "g3s3"), True, None)
+            if "data race" in e4 or "data race" in e5:
+                replay["tsan_excerpt"] = (e4 if "data race" in e4 else e5)[:1500]
+                chk.violation(
+                    "memory-size-unlocked-read-race",
+                    f"ThreadSanitizer reports a data race in the code w2c2 generates for a module with a {kind} memory when one "
+                    f"thread executes memory.size (`si0={sz};`) while another executes memory.grow", replay, True)
+        else:
+            rc, o4, e4 = gs.run(gexe, [1, 50, 0], timeout=60)        # single thread: size follows the grows
+            ent["sequential"] = o4
+            chk.count_case(("generated-sequential", kind), True, None)
+            if o4 != "pages 14":
+                broken.append({"kind": "correspondence", "msg": f"generated code ({kind}): 13 grows of one page report `{o4}`"})
+    chk.coverage["generated_code_memory_size"] = res
+    return res
+
+
 # ----------------------------------------------------------------------------- the check
 
 def driver_lines(lines):
@@ -333,6 +409,19 @@ def run(tier):
                 r = gs.parse_result(real_out[idx])
                 if r["blocked"]:
                     hist["blocked_observed"] += 1
+                if r.get("held") is not None and not any(v["key"] == "grow-returns-with-mutex-locked" for v in chk.violations):
+                    t = r["held"]
+                    chk.violation(
+                        "grow-returns-with-mutex-locked",
+                        f"shared memory ({init} pages, max {maxp}), schedule {sched}: operation {t} ({op_args(ops)[t]}) has RETURNED "
+                        f"(value {r['rets'][t]}) but the memory's mutex is still locked by it"
+                        + (f"; operation(s) {r['blocked']} are blocked on it forever" if r["blocked"] else "")
+                        + f" (real header: `{real_out[idx]}`)",
+                        {"harness": "tools/harness/grow_sched.c", "args": ["sched", init, maxp, sh, sched] + op_args(ops),
+                         "observed": real_out[idx],
+                         "model": "lock discipline: ReadsUnderLock Gen.growSteps (a `ret` while the mutex is held)",
+                         "replay_cmd": "python3 tools/check.py C18 --replay <this file>"}, True)
+                    continue
                 wrap_only = any(k == "g" and init + dl >= (1 << 32) for k, dl in ops)
                 if not linearizable(init, maxp, ops, r["rets"], r["pages"], sched):
                     if wrap_only:
@@ -367,22 +456,40 @@ def run(tier):
         smodel = driver_lines([f"gseq gen {i} {m} {sh} " + " ".join(map(str, ds)) for i, m, sh, ds in scases]) \
             if have_driver else None
         wrap_witness = None
+        leak_witness = None
         for idx, (init, maxp, sh, ds) in enumerate(scases):
             chk.count_case(("seq", init, maxp, sh, tuple(ds)), True, None)
             hist["seq"] += 1
-            if any(dl > 0x7fffffff for dl in ds):
+            if any(dl != "s" and dl > 0x7fffffff for dl in ds):
                 hist["wrap_deltas"] += 1
             if sreal and smodel and sreal[idx] != smodel[idx]:
                 broken.append({"kind": "correspondence", "msg": f"seq {init} {maxp} {sh} {ds}: real `{sreal[idx]}` model `{smodel[idx]}`"})
             if sreal and sreal[idx].startswith("ret"):
                 w = sreal[idx].split()
+                if w[-1] == "blocked-forever":
+                    hist["blocked_observed"] += 1
+                    done = len(w) - 2
+                    if leak_witness is None or len(ds) < len(leak_witness[3]):
+                        leak_witness = (init, maxp, sh, ds, sreal[idx], done)
+                    w = w[:-1] + ["pages", "0"]
                 rets = [int(x) for x in w[1:w.index("pages")]]
                 p = init
                 for dl, r in zip(ds, rets):
+                    dl = 0 if dl == "s" else dl
                     er, p2 = spec_grow(p, dl, maxp)
                     if r != er and wrap_witness is None:
                         wrap_witness = (init, maxp, sh, ds, sreal[idx], dl, r, er, p)
                     p = p2
+        if leak_witness:
+            init, maxp, sh, ds, out, done = leak_witness
+            chk.violation(
+                "grow-returns-with-mutex-locked",
+                f"on a shared memory ({init} pages, max {maxp}) the operations {ds[:done + 1]} of ONE thread: operation #{done + 1} "
+                f"({'memory.size' if ds[done] == 's' else 'memory.grow(%s)' % ds[done]}) blocks forever on the memory's mutex — an "
+                f"earlier operation returned without unlocking it (real header: `{out}`); every later grow/size of any thread hangs",
+                {"harness": "tools/harness/grow_sched.c", "args": ["seq", init, maxp, sh] + ds, "observed": out,
+                 "model": "lock discipline: ReadsUnderLock Gen.growSteps (a `ret` while the mutex is held)",
+                 "replay_cmd": "python3 tools/check.py C18 --replay <this file>"}, True)
         if wrap_witness:
             init, maxp, sh, ds, out, dl, r, er, p = wrap_witness
             rc, cout, _ = gs.run(exe, ["seq", 1, 10, 1, 4294967295])
@@ -447,42 +554,37 @@ def run(tier):
         # ---- (d) memory.size: the generated code must call the locked header function; ThreadSanitizer, free-running,
         #          growers and size readers on the real header functions (regression of fixed: ee826ee / 07872f3)
         if exe:
-            gexe = None
+            gen = generated_size_part(chk, repo, d, inc, tier, broken)
+            # watchdog, REAL threads and mutex: a failing (wrapping / too large) grow, then another thread uses the memory
             try:
-                import opmods
-                gexe, gtext = gs.build_generated(opmods.build_w2c2(repo, d), inc, os.path.join(d, "genmod"))
-                em = gs.emitted_statements(gtext)
+                fexe_free = gs.build(inc, d, "grow_free", ["-DGROW_FREE_RUNNING"])
+                wd = {}
+                for a_init, a_max, a_delta in [(1, 10, 4294967295), (2, 4, 4294967294), (1, 2, 5), (1, 10, 0), (1, 10, 2)]:
+                    args = ["after", a_init, a_max, a_delta]
+                    chk.count_case(("after",) + tuple(args[1:]), True, None)
+                    try:
+                        rc, o, e = gs.run(fexe_free, args, timeout=10)
+                        wd[" ".join(map(str, args))] = o
+                    except Exception:
+                        wd[" ".join(map(str, args))] = "TIMEOUT"
+                        chk.violation(
+                            "grow-returns-with-mutex-locked",
+                            f"shared memory ({a_init} pages, max {a_max}): after memory.grow({a_delta}) returned, a second thread "
+                            "executing memory.size / memory.grow(1) is blocked forever on the memory's mutex (free-running real "
+                            "threads, watchdog 10 s)",
+                            {"harness": "tools/harness/grow_sched.c (-DGROW_FREE_RUNNING)", "args": args,
+                             "replay_cmd": "python3 tools/check.py C18 --replay <this file>"}, True)
+                chk.coverage["watchdog_after_failed_grow"] = wd
             except Exception as e:
-                em = {"error": str(e)[-300:]}
-            chk.coverage["emitted_for_shared_memory"] = em
-            chk.count_case(("emitted-memory.size",), True, {"case": "w2c2 on (memory 1 4 shared) memory.size / memory.grow", "real": em})
-            sz = em.get("memory.size")
-            if sz is not None and not sz.startswith("wasmMemorySize("):
-                chk.violation(
-                    "memory-size-unlocked-read-race",
-                    f"memory.size on a shared memory is emitted as `si0={sz};` — a plain read of the descriptor, not the locked "
-                    "header function wasmMemorySize: data race with a concurrent memory.grow (model: unlocked_size_read_would_race)",
-                    {"module": gs.size_module().hex(), "emitted": em, "args": ["stress", 1, 3000, 1],
-                     "replay_cmd": "python3 tools/check.py C18 --replay <this file>"}, True)
-            elif sz is None:
-                broken.append({"kind": "correspondence", "msg": f"could not find the statement emitted for memory.size: {em}"})
+                chk.coverage["watchdog_after_failed_grow"] = "not run: " + str(e)[-200:]
             try:
                 texe = gs.build(inc, d, "grow_tsan", ["-fsanitize=thread", "-DGROW_FREE_RUNNING"])
                 iters = 3000 if tier == "quick" else 60000
                 rc, o1, e1 = gs.run(texe, ["stress", 3, iters, 0], timeout=300)
                 rc, o2, e2 = gs.run(texe, ["stress", 1, iters, 1], timeout=300)   # ONE grower: any race involves the size reader
                 rc, o3, e3 = gs.run(texe, ["stress", 3, iters, 3], timeout=300)
-                if gexe:      # the same through the code w2c2 generates (f0 = memory.size, f1 = memory.grow)
-                    rc, o4, e4 = gs.run(gexe, [1, iters, 1], timeout=300)
-                    rc, o5, e5 = gs.run(gexe, [3, iters, 3], timeout=300)
-                    chk.coverage["tsan_generated_code"] = {"one_grower_one_size_reader_race": "data race" in e4, "result": o4,
-                                                           "growers_and_size_readers_race": "data race" in e5, "result3": o5}
-                    chk.count_case(("tsan-generated", "g1s1"), True, None)
-                    chk.count_case(("tsan-generated", "g3s3"), True, None)
-                    if "data race" in e4 or "data race" in e5:
-                        e2 = e2 if "data race" in e2 else (e4 if "data race" in e4 else e5)
                 races1 = sorted(set(re.findall(r"w2c2_base\.h:(\d+)", e1))) if "data race" in e1 else []
-                size_race = "data race" in e2      # (also set when the generated-code run raced, see above)
+                size_race = "data race" in e2
                 chk.coverage["tsan"] = {"grow_only_race": "data race" in e1, "grow_only_race_lines": races1[:6],
                                         "grow_only_result": o1, "one_grower_one_size_reader_race": size_race,
                                         "one_grower_one_size_reader_result": o2,
@@ -592,12 +694,16 @@ def replay(path):
             bad = False
             if "module" in r:
                 import opmods
-                gexe, gtext = gs.build_generated(opmods.build_w2c2(repo, d), inc, os.path.join(d, "genmod"))
+                kind = r.get("memory_kind", "defined-shared")
+                shared, imported = [(sh, im) for k, sh, im in gs.MEMORY_KINDS if k == kind][0]
+                gexe, gtext = gs.build_generated(opmods.build_w2c2(repo, d), inc, os.path.join(d, "genmod"),
+                                                 shared=shared, imported=imported)
                 em = gs.emitted_statements(gtext)
-                print(f"w2c2 emits for memory.size on a shared memory: si0={em.get('memory.size')};")
+                print(f"w2c2 emits for memory.size on a {kind} memory: si0={em.get('memory.size')};")
                 bad = not (em.get("memory.size") or "").startswith("wasmMemorySize(")
                 rc, out, err = gs.run(gexe, [1, 3000, 1], timeout=300)
-                bad = bad or "data race" in err
+                print(f"TSan on the generated code: {'data race' if 'data race' in err else 'no race'}")
+                return 1 if (bad or "data race" in err) else 0
             exe = gs.build(inc, d, "grow_tsan", ["-fsanitize=thread", "-DGROW_FREE_RUNNING"])
             rc, out, err = gs.run(exe, r["args"], timeout=300)
             race = "data race" in err
@@ -610,14 +716,29 @@ def replay(path):
         if args[0] == "sched":
             ops = [("g", int(a[1:])) if a.startswith("g") else ("s", 0) for a in args[5:]]
             res = gs.parse_result(out)
+            if res["held"] is not None:
+                print(f"operation {res['held']} returned with the memory's mutex locked; blocked forever: {res['blocked']}")
+                return 1
             good = linearizable(int(args[1]), int(args[2]), ops, res["rets"], res["pages"], args[4])
             print("linearizable" if good else "NOT linearizable: no sequential order explains these results")
             return 0 if good else 1
+        if args[0] == "after":
+            texe = gs.build(inc, d, "grow_free", ["-DGROW_FREE_RUNNING"])
+            try:
+                rc, out, err = gs.run(texe, args, timeout=10)
+                print(f"free-running: `{out}`")
+                return 0
+            except Exception:
+                print("free-running: the second thread is blocked forever on the memory's mutex (watchdog 10 s)")
+                return 1
         if args[0] == "seq":
             w = out.split()
+            if w[-1] == "blocked-forever":
+                print("an operation blocks forever: an earlier one returned without unlocking the memory's mutex")
+                return 1
             rets = [int(x) for x in w[1:w.index("pages")]]
             p = int(args[1])
-            for dl, rv in zip([int(x) for x in args[4:]], rets):
+            for dl, rv in zip([0 if x == "s" else int(x) for x in args[4:]], rets):
                 er, p2 = spec_grow(p, dl, int(args[2]))
                 if rv != er:
                     print(f"grow({dl}) at {p} pages returned {rv}, specification {er}")
